@@ -98,14 +98,23 @@ def run(ctx):
             d = basicprog.encode(lines, be)
             pool.append(d)
             pool.append(d[:r.range(1, len(d) - 1)])
+        # programs that fail in the middle of a line (a line reference cut short by the end of the line, an unassigned
+        # extension token): what was printed of that line must not leak into the next file's listing
+        idx_, be_, canon_ = basicprog.DIALECTS[name]
+        for tail in ([0x8D, 0x54], [0x8D], [0xC6, 0x00], [0xC8, 0x00], [0xC7, 0xFF]):
+            bad_line = basicprog.Line(20, [basicprog.Item('tok', 0xF1), basicprog.Item('lit', 0x22), basicprog.Item('lit', 0x48), basicprog.Item('lit', 0x49), basicprog.Item('lit', 0x22),
+                                           basicprog.Item('lit', 0x3A)] + [basicprog.Item('lit', b_) for b_ in tail])
+            pool.append(basicprog.encode([basicprog.Line(10, [basicprog.Item('tok', 0xF1)]), bad_line], be_))
         singles = {}
         for j, d in enumerate(pool):
             c = vlib.Case(name, {'f%d' % j: d}, ['--dialect', name, '@f%d' % j], tool='basic', meta={'kind': 'single', 'dialect': name})
             singles[j] = c
             cases.append(c)
         nseq = 6 if ctx.tier == 'quick' else 60
-        for _ in range(nseq):
+        for q in range(nseq):
             seq = [r.below(len(pool)) for _ in range(r.range(2, 4))]
+            if q < 5:
+                seq = [6 + q, 0]          # each mid-line failure followed by a valid program
             cases.append(vlib.Case(name, {'f%d' % j: pool[j] for j in set(seq)}, ['--dialect', name] + ['@f%d' % j for j in seq], tool='basic',
                                    meta={'kind': 'multi', 'seq': seq, 'singles': singles, 'dialect': name}))
     vlib.run_cases(cases, bc.bins(impl))
